@@ -11,7 +11,7 @@ package align
 //@ pure func c10b_samelen(sb *seqbag) bool = forall r :: 0 <= r && r < nrows(sb) ==> rowlen(sb, r) == rowlen(sb, 0)
 
 //@ func seqBagToAlignment
-//@   props C10
+//@   props C10 C01
 //@   requires wf(sb)
 //@   ensures al != nil && fresh(al) && isalign(al)
 //@   ensures (err == nil) == c10b_samelen(sb)
@@ -34,7 +34,7 @@ package align
 //@ pure func c10b_sorted(keys []string) bool = forall j1, j2 :: 0 <= j1 && j1 < j2 && j2 < len(keys) ==> keys[j1] <= keys[j2]
 
 //@ func (*seqbag).rarefySeqBag
-//@   props C10 C19
+//@   props C10 C19 C01
 //@   requires wf(sb)
 //@   ensures err != nil ==> sample == nil
 //@   ensures err == nil ==> forall k string :: has(counts, k) ==> counts[k] > 0 && has(sb.seqmap, k)
@@ -78,7 +78,7 @@ package align
 // (no clause "err != nil ==> sample == nil": the engine models an interface value as the pointer it holds, and on error this
 // function returns a NON-nil SeqBag interface holding a nil *seqbag -- see report.md, side observation)
 //@ func (*seqbag).RarefySeqBag
-//@   props C10 C19
+//@   props C10 C19 C01
 //@   requires wf(sb)
 //@   ensures err == nil ==> forall k string :: has(counts, k) ==> counts[k] > 0 && has(sb.seqmap, k)
 //@   ensures (exists k string :: has(counts, k) && (counts[k] <= 0 || !has(sb.seqmap, k))) ==> err != nil
@@ -90,7 +90,7 @@ package align
 
 // Rarefy: the same draw on an alignment; the rows of the result are rows of a, so the conversion to an alignment cannot fail
 //@ func (*align).Rarefy
-//@   props C10 C19
+//@   props C10 C19 C01
 //@   requires wfa(a)
 //@   ensures err != nil ==> al == nil
 //@   ensures err == nil ==> forall k string :: has(counts, k) ==> counts[k] > 0 && has(a.seqmap, k)
@@ -104,7 +104,7 @@ package align
 // Sample: error iff nb is not in [1, n]; otherwise an alignment of nb rows, each one an original row (same name, same residues, own storage),
 // pairwise different (the result is well-formed, so its names are unique, and the names of a are unique); same length as a
 //@ func (*align).Sample
-//@   props C10 C19
+//@   props C10 C19 C01
 //@   requires wfa(a)
 //@   ensures (err == nil) == (1 <= nb && nb <= nrows(a))
 //@   ensures err != nil ==> al == nil
